@@ -21,8 +21,8 @@ SPEC = {
                     "the refinement / history theorems and the *-hist kinds are about the sequential Decode API (concurrent cache use is C10); the order in "
                     "which the worker pool decodes consecutive datagrams of one exporter is observed by the redefinition cycles (K5) and, in the "
                     "pipeline model, settled by k5_two_workers_counterexample (several workers: can be wrong) and one_worker_in_order / "
-                    "one_worker_latest_template (one worker: exact); the pipeline model's tie to the source is C12's (Gen.ipfixWorker canonical, "
-                    "read loop = canonicalRx); not proved: the NetFlow v9 instance of one_worker_latest_template, liveness"],
+                    "one_worker_latest_template / one_worker_latest_template_v9 (one worker: exact); the pipeline model's tie to the source is C12's "
+                    "(Gen.ipfixWorker / Gen.netflowV9Worker canonical, read loop = canonicalRx); not proved: liveness"],
 }
 META = {
     "text": "Lean: the concrete cache (32 shard maps keyed by the hex text of addr||id, shard picked by FNV-1) refines the abstract map "
@@ -40,7 +40,10 @@ META = {
             "of the arrivals (arrival order, cache threaded by folding decode), by the invariant Seq over Reach (Proofs/PipelineSeq.lean); "
             "one_worker_latest_template (IPFIX): with one worker, if the first arrivals encode a history whose data sets use the latest definition "
             "announced before them by the same exporter (wfHistoryLatest, no cache in the premise; wfHistory_eq_latest = refinement lifted to "
-            "histories of messages), every published payload is the rendering of exactly the records read with that latest definition. "
+            "histories of messages), every published payload is the rendering of exactly the records read with that latest definition; "
+            "one_worker_latest_template_v9 (+ _current_source for Gen.netflowV9Worker): the same for the NetFlow v9 instance (C05.v9Codec, RFC 3954 "
+            "encodings, premise wfHistoryLatestV9, wfHistoryV9_eq_latest, C05.v9_wellformed_published), with a kernel-checked one-worker run "
+            "announce A / re-announce B / data published with definition B. "
             "Correspondence: histories incl. searched colliding pairs, model vs real Decode, plus a reference-map oracle.",
     "ref": "DESIGN.md §6 C04, §8 K1/F26 K5",
     "note": "K1 is repaired (F26): no hypothesis about the hash is left; Ids16 (template ids < 65536) is the uint16 type of the code. "
